@@ -35,7 +35,7 @@ THEOREMS = {
     "C05": BASE_THEOREMS + ["C05_flipped_frame_rejected", "C05_truncated_frame_is_error", "crc16_single_bit", "crc16_append", "crc8_append"],
     "C14": ["C14_interrupted_stream", "C05_truncated_frame_is_error", "C03_decoder_follows_format"],
     "C16": ["C16_no_fabricated_frame", "C16_syncless_garbage_costs_no_frame", "C16_self_describing"],
-    "C17": ["C17_parse_inverts_write", "C17_write_inverts_parse", "C17_subframe_write_inverts_parse", "ex_frame_wf", "ex_frame_roundtrip"],
+    "C17": ["C17_parse_inverts_write", "C17_write_inverts_parse", "C17_subframe_write_inverts_parse", "C17_subframe_expands_to_block_size", "ex_frame_wf", "ex_frame_roundtrip"],
     "C19": ["C19_subframe_bound", "C19_frame_bound", "C17_parse_inverts_write"],
 }
 
@@ -152,6 +152,8 @@ def compare(case, r):
         if _cls(case["end"]) != _cls(r["end"]):
             return "ending differs: impl %s model %s" % (case["end"], r["end"]), None
         if case["end"] == "ok":
+            if r.get("wf") is False:
+                return "the structural parser (model and implementation) accepts a frame whose tree the model finds not well-formed", None
             if case["decoded"] != r["decoded"]:
                 return "decoded subframes differ", None
             if r.get("canonical") and case.get("rewritten", "") not in ("", "!") and case["rewritten"] != case["bytes"][:len(case["rewritten"])]:
